@@ -30,6 +30,8 @@ func srcVal(v *Val) string {
 		return "\"" + v.S + "\""
 	case "b":
 		return fmt.Sprint(v.B)
+	case "null":
+		return "null"
 	case "l", "set":
 		if len(v.E) == 0 {
 			bail("empty collection literal")
